@@ -185,42 +185,49 @@ def run(rep, tier):
         rep.check(ok, "R13.2", "step|legacy", "interval_ = (max_-min_)/(n_-1)", "legacy interval_ is %s, not (max_-min_)/(n_-1)" % str(val)[:200],
                   pd.loc(ist[0]["node"]), sample=True)
 
-    # R13.4 extremum seeds
-    seeds = []
-    for n in pd.walk():
-        if n.get("k") == "assign" and n["op"] == "=":
-            l = unwrap(n["lhs"])
-            r = unwrap(n["rhs"])
-            if l.get("k") == "member" and l.get("field") in (T + "Histogram::min_", T + "Histogram::max_"):
-                neg = False
-                if r.get("k") == "unop" and r["op"] == "-":
-                    neg = True
-                    r = unwrap(r["sub"])
-                if r.get("k") == "call" and "numeric_limits" in (r.get("callee") or ""):
-                    seeds.append((l["fname"], ("-" if neg else "") + r["callee"].split("::")[-1], n))
-    rep.floor("R13.4", len(seeds), 2, "extremum seeds")
-    for fld, seed, n in seeds:
-        if fld == "min_":
-            ok = seed == "max"
-            bad = "running minimum is seeded with numeric_limits::%s()" % seed
-        else:
-            ok = seed in ("lowest", "-max")
-            bad = ("running maximum is seeded with numeric_limits<double>::%s() - the smallest POSITIVE double, so an "
-                   "all-negative data set gets max_ ~ 0 and a wrong automatic range" % seed) if seed == "min" else \
-                  "running maximum is seeded with numeric_limits::%s()" % seed
-        rep.check(ok, "R13.4", "seed|Histogram::ProcessData|" + fld, "%s seeded with %s()" % (fld, seed), bad, pd.loc(n), sample=True)
-    # the running extrema use std::min / std::max with the matching field
-    upd = 0
-    for n in pd.walk():
-        if n.get("k") == "assign" and n["op"] == "=":
-            l, r = unwrap(n["lhs"]), unwrap(n["rhs"])
-            if l.get("k") == "member" and l.get("field") in (T + "Histogram::min_", T + "Histogram::max_") and r.get("k") == "call" and r.get("callee") in ("std::min", "std::max"):
-                upd += 1
-                want = "std::min" if l["fname"] == "min_" else "std::max"
-                args = [show(a) for a in r["args"]]
-                rep.check(r["callee"] == want and l["fname"] in args, "R13.4", "update|" + l["fname"], "%s = %s(%s)" % (l["fname"], want, args),
-                          "%s is updated with %s(%s)" % (l["fname"], r["callee"], args), pd.loc(n))
-    rep.floor("R13.4", upd, 2, "extremum updates")
+    # R13.4 running extrema, on folded values: the loop over the samples carries min_ and max_; their start values in automatic mode are the
+    # neutral elements, and one step maps (min, max) to (min(v, min), max(v, max)) - decided on representatives of every ordering of v, min, max
+    from vsa.cases import decide as _dec, resolve_ite as _res
+    fpd = Fold(pd).run()
+    cpd = getattr(fpd, "conds", {})
+    KMIN, KMAX = ("field", "min_"), ("field", "max_")
+    lp = [l for l in getattr(fpd, "loops", []) if l.get("var") is not None and KMIN in l.get("step", {}) and KMAX in l.get("step", {})
+          and l["var"] in getattr(l["step"][KMIN], "free_symbols", set()) | getattr(l["step"][KMAX], "free_symbols", set())]
+    outer = [l for l in getattr(fpd, "loops", []) if KMIN in l.get("init", {}) and KMAX in l.get("init", {})]
+    rep.floor("R13.4", len(lp), 1, "loops updating the running extrema")
+    if lp and outer:
+        def auto_orc(lf):
+            if str(lf) == "options_.auto_interval_":
+                return ("AUTO", True)
+            if str(lf) == "options_.extend_interval_":
+                return ("EXT", True)
+            return None
+        for key, fld, good in ((KMIN, "min_", ("max()",)), (KMAX, "max_", ("lowest()", "-max()"))):
+            iv = outer[0]["init"][key]
+            iv = _res(iv, lambda cs: _dec(cpd[cs], None, {"AUTO": True, "EXT": True}, auto_orc, cpd) if cs in cpd else None) if hasattr(iv, "args") else iv
+            seed = str(iv)
+            bad = ("running maximum is seeded with numeric_limits<double>::min() - the smallest POSITIVE double, so an all-negative data set gets max_ ~ 0 and a wrong automatic "
+                   "range") if (fld == "max_" and seed == "min()") else "running %s is seeded with %s in automatic mode" % ("minimum" if fld == "min_" else "maximum", seed)
+            rep.check(seed in good, "R13.4", "seed|Histogram::ProcessData|" + fld, "%s seeded with %s" % (fld, seed), bad, pd.loc(), sample=True)
+        l = lp[0]
+        v_, mn_, mx_ = l["var"], l["syms"][KMIN], l["syms"][KMAX]
+        from sympy.core.function import AppliedUndef
+        badu = None
+        for rv, rmn, rmx in ((5, 10, 0), (5, 3, 7), (1, 3, 7), (9, 3, 7), (3, 3, 7), (7, 3, 7), (-2, -1, -1), (4, 4, 4)):
+            sub = {v_: sp.Integer(rv), mn_: sp.Integer(rmn), mx_: sp.Integer(rmx)}
+            got = {}
+            for key in (KMIN, KMAX):
+                st_ = l["step"][key]
+                st_ = _res(st_, lambda cs: _dec(cpd[cs], sub, None, None, cpd) if cs in cpd else None) if hasattr(st_, "args") else st_
+                if hasattr(st_, "xreplace"):
+                    st_ = st_.xreplace(sub)
+                    st_ = st_.replace(lambda x: isinstance(x, AppliedUndef) and str(x.func) in ("min", "max"), lambda x: (sp.Min if str(x.func) == "min" else sp.Max)(*x.args))
+                got[key] = st_
+            if got[KMIN] != min(rv, rmn) or got[KMAX] != max(rv, rmx):
+                badu = "for a sample %d with running (min, max) = (%d, %d) the step gives (%s, %s), required (%d, %d): a sample that lowers the minimum %s" % (
+                    rv, rmn, rmx, got[KMIN], got[KMAX], min(rv, rmn), max(rv, rmx), "is not considered for the maximum (the first sample always is one)" if got[KMAX] != max(rv, rmx) else "is lost")
+                break
+        rep.check(badu is None, "R13.4", "update|min_max_", "one step: (min, max) -> (min(v, min), max(v, max))", "Histogram::ProcessData: " + str(badu), pd.loc(l["node"]), sample=True)
 
     # legacy Normalize: every bin p_k becomes p_k / (interval_ * SUM p), the sum accumulated in floating point
     ln = F.one(T + "Histogram::Normalize")
